@@ -128,6 +128,7 @@ enum Op {
     Uncompress(u8, usize),             // through an iterator positioned at record index
     Rename(Vec<u8>, Vec<u8>, bool),
     WalkDelete(u8, u64),               // C11: walk a section deleting the records whose bit is set
+    InsertQuestion(Vec<u8>),           // text name, type A, class IN
 }
 fn op_to_str(o: &Op) -> String {
     match o {
@@ -138,6 +139,7 @@ fn op_to_str(o: &Op) -> String {
         Op::Insert(s, t) => format!("ins:{}:{}", s, hex(t.as_bytes())), Op::Recompute => "recompute".into(),
         Op::Uncompress(s, k) => format!("unc:{}:{}", s, k), Op::Rename(t, s, x) => format!("ren:{}:{}:{}", hex(t), hex(s), *x as u8),
         Op::WalkDelete(s, m) => format!("wdel:{}:{}", s, m),
+        Op::InsertQuestion(n) => format!("insq:{}", hex(n)),
     }
 }
 fn op_from_str(s: &str) -> Result<Op, String> {
@@ -150,6 +152,7 @@ fn op_from_str(s: &str) -> Result<Op, String> {
         "ins" => Op::Insert(n(1)? as u8, String::from_utf8(unhex(f[2])?).map_err(|e| e.to_string())?), "recompute" => Op::Recompute,
         "unc" => Op::Uncompress(n(1)? as u8, n(2)? as usize), "ren" => Op::Rename(unhex(f[1])?, unhex(f[2])?, n(3)? != 0),
         "wdel" => Op::WalkDelete(n(1)? as u8, n(2)?),
+        "insq" => Op::InsertQuestion(unhex(f[1])?),
         _ => return Err(format!("unknown op {}", s)),
     })
 }
@@ -209,7 +212,7 @@ fn apply(pp: &mut ParsedPacket, model: &MMsg, op: &Op, prop: &str) -> Result<Out
         Op::SetOpcode(v) => { pp.set_opcode(*v); m.hdr[2] = (m.hdr[2] & 0x87) | ((*v & 0x0f) << 3); }
         Op::SetResponse(v) => { pp.set_response(*v); m.hdr[2] = (m.hdr[2] & 0x7f) | if *v { 0x80 } else { 0 }; }
         Op::SetName(s, k, n) => {
-            let valid = wire::plain_walk(n, 0).is_some();
+            let valid = wire::name_walk(n, 0).is_some();       // the parser's name policy; a stand-alone name cannot contain a (backward) pointer
             let r = if *s == 0 {
                 let mut it = pp.into_iter_question();
                 match it.as_mut() { Some(item) => Some(item.set_raw_name(n).map(|_| { let t = item.rr_type(); (item.name(), t) })), None => None }
@@ -221,7 +224,7 @@ fn apply(pp: &mut ParsedPacket, model: &MMsg, op: &Op, prop: &str) -> Result<Out
                 None => return Ok(Outcome { model: m, failed: false }),    // no such record: nothing happened
                 Some(Ok((readback, rtype))) => {
                     if !valid { return Err("set_raw_name accepted an invalid name".into()); }
-                    let nn = n[..wire::plain_walk(n, 0).unwrap()].to_vec();
+                    let nn = n[..wire::name_walk(n, 0).unwrap().0].to_vec();
                     if *s == 0 { if let Some(q) = &mut m.q { q.0 = nn.clone(); } } else { let rec = &mut m.secs[(*s - 1) as usize][*k]; rec.name = nn.clone(); if rec.rtype != rtype { return Err("iterator no longer designates the record after set_raw_name".into()); } }
                     if !nn.iter().any(|&c| wire::bad_char(c) && c != 0) || true { if readback != wire::to_text(&nn) { return Err(format!("name reads back as {:?}", String::from_utf8_lossy(&readback))); } }
                 }
@@ -243,6 +246,7 @@ fn apply(pp: &mut ParsedPacket, model: &MMsg, op: &Op, prop: &str) -> Result<Out
             }
         }
         Op::Insert(s, text) => {
+            if *s == 0 { return Ok(Outcome { model: m, failed: false }); }    // resource records do not go into the question section
             let rr = match r#gen::RR::from_string(text) { Ok(rr) => rr, Err(_) => return Ok(Outcome { model: m, failed: false }) };
             let rrm = { // decode the record through a scratch packet
                 let mut sp: Vec<u8> = vec![0, 0, 0x80, 0, 0, 1, 0, 1, 0, 0, 0, 0, 1, b'q', 0, 0, 1, 0, 1]; sp.extend(&rr.packet);
@@ -254,12 +258,25 @@ fn apply(pp: &mut ParsedPacket, model: &MMsg, op: &Op, prop: &str) -> Result<Out
                 Err(_) => { failed = true; }
             }
         }
+        Op::InsertQuestion(name) => {
+            let rr = match r#gen::RR::new_question(name, Type::A, Class::IN) { Ok(rr) => rr, Err(_) => return Ok(Outcome { model: m, failed: false }) };
+            let r = pp.insert_rr(Section::Question, rr);
+            match r {
+                Ok(()) => { if m.q.is_some() { return Err("a second question was accepted".into()); }
+                            m.q = Some((ref_name_to_wire(name, None).ok_or("reference rejects the name")?, 1, 1)); }
+                Err(_) => { failed = true; if m.q.is_none() && pp.packet.as_ref().unwrap().len() + name.len() + 6 <= 8192 { return Err("a first question was rejected".into()); } }
+            }
+        }
         Op::Recompute => { if pp.recompute().is_err() { failed = true; } }
         Op::Uncompress(s, k) => {
             let r = with_item(pp, *s, *k, |item| { let t = item.rr_type(); let n = item.name(); item.uncompress().map(|_| (t == item.rr_type() && n == item.name(), { let mut v: Vec<(u16, Vec<u8>)> = vec![]; v })) });
             if let Some(r) = r { match r { Ok((same, _)) => { if !same { return Err("iterator designates another record after uncompress()".into()); } }, Err(_) => failed = true } }
         }
         Op::Rename(t, s, x) => {
+            if t.len() <= 1 || s.len() <= 1 { return Ok(Outcome { model: m, failed: false }); }     // C07 quantifies over non-root names
+            // rename re-parses: it is defined on accepted packets only (a query that was given answers is not one)
+            let policy_ok = m.q.is_some() && (m.hdr[2] & 0x80 != 0 || (m.secs[0].is_empty() && m.secs[1].is_empty()));
+            if !policy_ok { return Ok(Outcome { model: m, failed: false }); }
             let r = pp.rename_with_raw_names(t, s, *x);
             match (r, model_rename(&m, t, s, *x)) {
                 (Ok(()), Ok(mm)) => { m = mm; }
@@ -366,6 +383,10 @@ pub fn replay(prop: &str, a: &[&str]) -> Result<(), String> {
             for os in &a[2..] {
                 let op = op_from_str(os)?;
                 let before = model.clone();
+                // known policy corner: the OPT record edited through the generic record accessors
+                let on_opt = match &op { Op::SetName(3, k, _) | Op::SetTtl(3, k, _) => model.secs[2].get(*k).map_or(false, |r| r.rtype == 41), _ => false };
+                let tag = if on_opt { "[OPT record edited through a generic accessor] " } else { "" };
+                let r = (|| -> Result<(), String> {
                 let out = apply(&mut pp, &model, &op, prop).map_err(|e| format!("{} at op {}", e, os))?;
                 model = out.model;
                 let bytes = pp.packet.clone().ok_or(format!("packet is None after {}", os))?;
@@ -374,6 +395,8 @@ pub fn replay(prop: &str, a: &[&str]) -> Result<(), String> {
                 if !msg_eq(&got, &model) { return Err(format!("after {} the message is {} but the specification says {}", os, hex(&encode(&got)), hex(&encode(&model)))); }
                 let policy_ok = model.q.is_some() && (model.hdr[2] & 0x80 != 0 || (model.secs[0].is_empty() && model.secs[1].is_empty()));
                 coherent(&mut pp, policy_ok).map_err(|e| format!("{} after {}", e, os))?;
+                Ok(()) })();
+                r.map_err(|e| format!("{}{}", tag, e))?;
             }
             Ok(())
         }
@@ -409,7 +432,33 @@ pub fn gen(prop: &str, r: &mut Rng, _filter: &str) -> Vec<String> {
     if wire::parse_ref(&p).is_none() { return vec![]; }
     match prop {
         "c05" => vec![prop.into(), "unc".into(), hex(&p)],
-        "c06" => vec![prop.into(), "cmp".into(), hex(&p)],
+        "c06" => {
+            if r.chance(1, 6) {
+                // boundary families of C06: nested suffixes (deeper than 16), more than 32 suffixes, suffixes beyond 127 bytes,
+                // names beyond offset 16383, mixed-case duplicates
+                let mut q: Vec<u8> = vec![0, 7, 0x80, 0, 0, 1, 0, 0, 0, 0, 0, 0, 1, b'q', 0, 0, 1, 0, 1];
+                let mut n = 0u16;
+                let fam = r.below(4);
+                let depth = 18 + r.below(8) as usize;
+                let mut rec = |q: &mut Vec<u8>, name: &[u8]| { q.extend_from_slice(name); q.extend_from_slice(&[0, 1, 0, 1, 0, 0, 0, 1, 0, 4, 1, 2, 3, 4]); };
+                match fam {
+                    0 => { // l1 ; l2.l1 ; l3.l2.l1 ; ...
+                        for d in 1..=depth { let mut name = vec![]; for k in (1..=d).rev() { name.push(2); name.push(b'a' + (k % 26) as u8); name.push(b'0' + (k / 26) as u8); } name.push(0); rec(&mut q, &name); n += 1; } }
+                    1 => { // many distinct suffixes, then repeats (mixed case)
+                        for d in 0..40 { let name = vec![3, b'n', b'a' + (d % 26) as u8, b'a' + (d / 26) as u8, 3, b'c', b'o', b'm', 0]; rec(&mut q, &name); n += 1; }
+                        for d in 0..40 { let name = vec![1, b'w', 3, b'N', b'A' + (d % 26) as u8, b'a' + (d / 26) as u8, 3, b'C', b'o', b'M', 0]; rec(&mut q, &name); n += 1; } }
+                    2 => { // long suffixes
+                        let mut long = vec![]; for k in 0..3 { long.push(60); long.extend(std::iter::repeat(b'a' + k).take(60)); } long.push(0);
+                        for _ in 0..3 { rec(&mut q, &long); n += 1; let mut x = vec![1, b'x']; x.extend(&long); rec(&mut q, &x); n += 1; } }
+                    _ => { // push names beyond offset 16383 with big unknown records
+                        for _ in 0..5 { q.extend_from_slice(&[1, b'z', 0, 0, 99, 0, 1, 0, 0, 0, 1, 0x0f, 0xa0]); q.extend(std::iter::repeat(7u8).take(4000)); n += 1; }
+                        for _ in 0..4 { rec(&mut q, &[3, b'f', b'a', b'r', 3, b'o', b'u', b't', 0]); n += 1; } }
+                }
+                q[6] = (n >> 8) as u8; q[7] = n as u8;
+                return vec![prop.into(), "cmp".into(), hex(&q)];
+            }
+            vec![prop.into(), "cmp".into(), hex(&p)]
+        }
         "c07" => {
             let m = wire::parse_ref(&p).unwrap();
             // pick a source from the names present (or a random one), at a random label depth
@@ -433,9 +482,9 @@ pub fn gen(prop: &str, r: &mut Rng, _filter: &str) -> Vec<String> {
                 let k = r.below(cnt(s) as u64 + 1) as usize;
                 let op = if prop == "c11" { Op::WalkDelete(s, r.next() & 0xff) } else {
                     match r.below(if prop == "c10" { 8 } else { 14 }) {
-                        0 => Op::SetName(if r.chance(1, 5) { 0 } else { s }, k, { let mut n = gen_raw_name(r); if prop == "c10" || r.chance(1, 6) { let i = r.below(n.len() as u64) as usize; n[i] = *r.pick(&[64u8, 0xc0, 200]); } n }),
+                        0 => Op::SetName(if r.chance(1, 5) { 0 } else { s }, k, { let mut n = gen_raw_name(r); if prop == "c10" || r.chance(1, 6) { let i = r.below(n.len() as u64) as usize; n[i] = *r.pick(&[64u8, 0xc0, 200, b'.', b'\\', 7, 127]); } n }),
                         1 => Op::Delete(if r.chance(1, 8) { 0 } else { s }, k),
-                        2 => Op::Insert(if prop == "c10" && r.chance(1, 3) { 0 } else { s }, text_rr(r)),
+                        2 => if r.chance(1, 4) { Op::InsertQuestion(format!("q{}.example", r.below(9)).into_bytes()) } else { Op::Insert(s, text_rr(r)) },
                         3 => Op::SetTtl(s, k, r.next() as u32),
                         4 => Op::SetIp(s, k, if r.chance(1, 2) { r.bytes(4) } else { r.bytes(16) }),
                         5 => Op::Uncompress(s, k),
